@@ -150,5 +150,12 @@ PROPS["C19"] = {
     "outside": "",
 }
 
+PROPS["C03"] = {
+    "programs": {"quick": [P(".", "VerifPathSelectorShape", must_reach=("end","empty-path"), len=3),
+                           P("test", "VerifPathTraversal", must_reach=("end","present","absent"))]},
+    "bounds": {"quick": "S1: every ASCII path string of 3 bytes x 4 target selectors x matchPath; S3: the real go-ipld-prime traversal over one tree (plain dirs, HAMT dir, 3-block file) x 8 paths (present, absent, redundant slashes, '..') x 3 target selectors x matchPath, symbolic file contents"},
+    "assumptions": [], "outside": "",
+}
+
 NOT_APPLICABLE = {}
 NOTES = "All checks are bounded: every result reads 'holds for all values within the bounds recorded in the evidence file; nothing is claimed outside them'. exit 2 = inconclusive (never a pass)."
